@@ -224,6 +224,7 @@ class Spec:
     derscale: Any = None
     algscale: Any = None
     xshape: Any = None      # list of (rows, cols) partitioning nx into declared states; None => scalars
+    ode_broadcast: Any = None   # {state group index: E}: that (vector valued) state is given ONE scalar right-hand side (repeated); spec.ode lists it per element
     zshape: Any = None      # list of sizes partitioning nz into declared (vector valued) algebraic variables; None => scalars
     initial: Any = field(default_factory=list)   # list of (target E leaf, value) for set_initial
     note: str = ''
